@@ -161,9 +161,9 @@ _ALL = ["C%02d" % i for i in range(1, 21)]
 META["C01"] = {
     "category": "proof",
     "design_ref": "DESIGN.md section 5 / C01 and section 9.5",
-    "technique": "Lean 4: the decode/encode round trip as a total function computed from the regenerated tables (T1/T2: types, serialised properties, element plans, natural-language spellings, typeless types) with member-level theorems for any tables passing two decidable conditions the kernel evaluates on the regenerated data; model = implementation checked on ~13k generated documents per run with a model-independent oracle (exactness on canonical documents, no member dropped, second round trip = first)",
-    "text": "Proved for every value, every type and every nested normaliser: (1) a member whose key is not one of the type's known keys is carried through unchanged (unknown_kept; the 'known keys cover everything the properties write' condition is kernel-evaluated on the regenerated tables); (2) what a property of the value re-serialises to is exactly what the output carries under that key (known_kept, from key distinctness, kernel-evaluated), and a canonical property value - scalar, list of n != 1 in order, language map under the Map spelling, functional value - re-serialises to itself under the same spelling (rtProp_scalar/_list/_map/_functional), elements of non-type kind verbatim (elem_verbatim). Whole-document equality and second-round-trip stability are NOT a theorem (they need an extensionality argument over sorted member lists that was not built): they are decided per run by the oracle over the generated documents and by model=implementation agreement. A value carrying both spellings of a natural-language member loses one (recorded finding C01-both-spellings).",
-    "note": "Partial proof: member-wise theorems + per-run oracle for whole-document claims. Trusted: Lean kernel (propext, Quot.sound, Classical.choice), T1/T2 extraction (validated by C12's exhaustive probes), the harness; literal re-serialisation is taken as the identity on canonical lexical forms (C12 codecs); @context aliases are not modelled.",
+    "technique": "Lean 4: the decode/encode round trip as a total function computed from the regenerated tables (T1/T2: types, serialised properties, element plans, natural-language spellings, typeless types); whole-value exactness theorem for an executable canonical-form predicate (induction on nesting depth; extensionality of key-sorted member lists) under three decidable table conditions the kernel evaluates on the regenerated data; model = implementation and 'canonB => output = input' checked on ~13.5k generated documents per run with a model-independent oracle for the remaining clauses",
+    "text": "Proved, for every document of any nesting depth and size: if the document is canonical (canonB: key-sorted members, each known property absent / a single non-null value / an array of n != 1 values / one language map under the Map spelling, never both spellings, nested typed values canonical, unknown members arbitrary) then decode->encode returns exactly that document (rt_canonical, rtDoc_canonical: but for @context members of child maps, which the serialiser always deletes); unknown members are carried through unchanged for ANY value, canonical or not (unknown_kept); what each property re-serialises to is what the output carries (known_kept). The three table conditions (skip list = spellings of the serialised properties, both directions; spellings pairwise distinct) are re-evaluated by the kernel on the tables regenerated from /repo each run, and the theorem is instantiated on them (c01_rt_canonical). Per run the driver evaluates canonB on every generated document and requires the implementation's output to equal the input where it holds (98% of the documents). NOT a theorem: second-round-trip stability for non-canonical documents and the computed top-level @context - decided per run by the oracle. A value carrying both spellings of a natural-language member loses one (recorded finding C01-both-spellings; excluded by canonB).",
+    "note": "Trusted: Lean kernel (propext, Quot.sound, Classical.choice), T1/T2 extraction (validated by C12's exhaustive probes), the harness; literal and IRI re-serialisation is taken as the identity on the lexical forms the generator emits (C12 codecs; checked per run by model = implementation); @context aliases are not modelled. Stability and @context clauses: per-run oracle only.",
 }
 
 NOT_APPLICABLE = [{"property_id": p, "reason": PENDING} for p in _ALL if p not in META]
